@@ -5,7 +5,7 @@ discharged).  An alternative lists labelled contract clauses on real functions, 
 Kani harnesses, and optionally `body_of` (panic-freedom obligations inside function bodies).
 ('fn', '*') = every labelled clause of fn except the alternative's `exclude` labels.
 """
-S = "serialization::"; G = "group::"; K = "keypair::"; T = "tripledh::"; O = "opaque::"; M = "messages::"; E = "envelope::"; ER = "errors::"
+S = "serialization::"; GE = "group_ec::G::"; G = "group::"; K = "keypair::"; T = "tripledh::"; O = "opaque::"; M = "messages::"; E = "envelope::"; ER = "errors::"
 
 # labels that state a REJECTION / error behaviour (not needed for "honest runs succeed" and value properties)
 SOUND = {"sound", "sound_env", "sound_mac", "errkind", "strict", "nonid", "ids_err", "ctx_err", "mode_err", "ksf_err", "pw_len", "len_err",
@@ -15,6 +15,7 @@ ALL_FNS = [
     ER + "InternalError::into_custom", ER + "ProtocolError::into_custom", ER + "check_slice_size", ER + "check_slice_size_atleast",
     S + "Input::from", S + "Input::from_owned", S + "Input::from_label", S + "Input::iter", S + "Input::to_array_2", S + "Input::to_array_3",
     "ksf::Identity::hash", "ksf::Argon2::hash", G + "i2osp_2", G + "KeGroup::derive_auth_keypair",
+    GE + "serialize_pk", GE + "deserialize_pk", GE + "hash_to_scalar", GE + "public_key", GE + "is_zero_scalar", GE + "diffie_hellman", GE + "serialize_sk", GE + "deserialize_sk", GE + "derive_auth_keypair",
     K + "KeyPair::public", K + "KeyPair::private", K + "KeyPair::from_private_key", K + "KeyPair::from_private_key_slice", K + "KeyPair::generate_random",
     K + "PrivateKey::diffie_hellman", K + "PrivateKey::public_key", K + "PrivateKey::serialize", K + "PrivateKey::deserialize", K + "PublicKey::deserialize", K + "PublicKey::serialize",
     K + "PrivateKey::deserialize[serde]", K + "PrivateKey::serialize[serde]", K + "PublicKey::deserialize[serde]", K + "PublicKey::serialize[serde]",
@@ -44,6 +45,10 @@ def star(fns):
     return [(f, "*") for f in fns]
 
 
+# everything except the strictness (which encodings are refused: C10) of the NIST group's two key decoders
+ALL_BUT_EC_STRICT = star([f for f in ALL_FNS if f not in (GE + "deserialize_pk", GE + "deserialize_sk")]) + [(GE + "deserialize_pk", "valid"), (GE + "deserialize_sk", "valid"), (GE + "deserialize_sk", "nonzero")]
+
+
 VACUITY_THEOREMS = {
     "thm_c01_honest_run", "thm_c02_reject_env", "thm_c02_reject_mac", "thm_c02_real_env", "thm_c02_real_mac", "thm_transcript_agreement", "thm_c03_exact", "thm_c03_reload",
     "thm_c04_mac_only", "thm_c04_fields", "thm_c05_login_binding", "thm_c05_envelope_binding", "thm_c07_client_matched", "thm_c07_server_matched", "thm_c07_distinct_sessions",
@@ -67,7 +72,7 @@ PROPS["C01"] = {
     "alternatives": [{
         "name": "honest-run",
         "clauses": [],
-         "supporting": star(ALL_FNS), "exclude": SOUND,
+         "supporting": ALL_BUT_EC_STRICT, "exclude": SOUND,
          "theorems": ["thm_c01_honest_run", "lemma_oprf_unblind", "lemma_oprf_output_blind_independent", "lemma_unmask", "lemma_xor_involution"],
     }],
     "witness": "c01",
@@ -175,7 +180,9 @@ PROPS["C08"] = {
 PROPS["C09"] = {
     "alternatives": [{
         "name": "rfc-oracle",
-        "clauses": star(ALL_FNS), "exclude": {"strict"},
+        # (strictness of the key decoders of the NIST group - which encodings are REFUSED - is C10, not RFC conformance of outputs)
+        "clauses": ALL_BUT_EC_STRICT,
+        "exclude": {"strict"},
         "theorems": ["lemma_i2osp1", "lemma_i2osp2", "lemma_preamble_flat", "thm_c03_expected_tag"],
         "kani": {"quick": [("leaf", "i2osp_u2_exact"), ("leaf", "i2osp_u1_exact")], "thorough": [("api", "x25519_derive_is_clamp")]},
         "replay": ["c09"],
@@ -239,7 +246,7 @@ PROPS["C17"] = {
     "alternatives": [{
         "name": "functional-contracts",
         "clauses": [(O + "blind", "*"), (O + "ServerLogin::start", "tape"), (O + "ServerSetup::new", "tape"), (O + "ServerSetup::new_with_key", "tape"), (E + "Envelope::seal", "tape"), (O + "ClientRegistration::start", "tape"), (O + "ClientRegistration::finish", "tape"), (M + "RegistrationUpload::dummy", "tape"), (O + "ServerRegistration::dummy", "tape"), (T + "generate_nonce", "*"), (T + "TripleDh::generate_ke1", "tape"), (T + "TripleDh::generate_ke2", "tape"), (K + "KeyPair::generate_random", "tape")],
-         "supporting": star(ALL_FNS), "exclude": SOUND,
+         "supporting": ALL_BUT_EC_STRICT, "exclude": SOUND,
          "theorems": ["thm_c17_server_login_deterministic", "thm_c17_disjoint_segments"],
     }],
     "witness": "c17",
@@ -260,13 +267,14 @@ PROPS["C18"] = {
 }
 
 C10_THMS = ["thm_c10_registration_request", "thm_c10_registration_response", "thm_c10_registration_upload", "thm_c10_credential_request", "thm_c10_credential_response",
-            "thm_c10_credential_finalization", "thm_c10_server_registration", "thm_c10_server_login", "thm_c10_client_registration", "thm_c10_client_login", "thm_c10_server_setup"]
+            "thm_c10_credential_finalization", "thm_c10_server_registration", "thm_c10_server_login", "thm_c10_client_registration", "thm_c10_client_login", "thm_c10_server_setup", "thm_c10_private_key_slice", "thm_c10_public_key"]
 VACUITY_THEOREMS |= set(C10_THMS) | {"thm_c13_server_setup_external"}
 
 PROPS["C10"] = {
     "alternatives": [{
         "name": "strict-canonical",
-        "clauses": star(DECODERS + ENCODERS + [ER + "check_slice_size", ER + "check_slice_size_atleast", O + "MaskedResponse::deserialize", O + "MaskedResponse::serialize"]),
+        "clauses": star(DECODERS + ENCODERS + [ER + "check_slice_size", ER + "check_slice_size_atleast", O + "MaskedResponse::deserialize", O + "MaskedResponse::serialize",
+                                               GE + "deserialize_pk", GE + "deserialize_sk", GE + "serialize_pk", GE + "serialize_sk", K + "KeyPair::from_private_key_slice"]),
         "theorems": C10_THMS + ["thm_c13_server_registration", "thm_c13_client_registration", "thm_c13_client_login", "thm_c13_server_setup", "thm_c03_reload"],
         "kani": {"quick": [("leaf", "check_slice_size_exact"), ("api", "x25519_sk_decode"), ("api", "x25519_pk_decode_identity"), ("api", "ristretto_sk_decode")],
                  "thorough": [("api", "x25519_sk_decode_length"), ("api", "ristretto_decode_length")]},
@@ -274,14 +282,15 @@ PROPS["C10"] = {
     }],
     "witness": "c10",
     "explanation": "For each of the eleven decoders a Verus harness decodes an ARBITRARY byte string with the real decoder and re-encodes with the real encoder: accepted bytes re-encode to themselves (one fixed suite-determined length, no trailing bytes, no alias encodings); plus encode-then-decode is the identity (C13 harnesses). Proved parametrically in the suite lengths. Canonical decoding of key-exchange keys is the KeGroup trait contract: Curve25519 proved by Kani over all 2^256 inputs, ristretto255 / NIST wrappers assumed of the dependency and sampled on all 256 tag bytes by the replay crate.",
-    "assumptions": [A_PRELUDE, "KeGroup::deserialize_pk / deserialize_sk are canonical (Kani for Curve25519; dalek / elliptic-curve contract for the others, sampled)", "scalar decoding of the OPRF group is canonical for exact-length input (dependency contract, sampled)"],
+    "assumptions": [A_PRELUDE, "KeGroup::deserialize_pk / deserialize_sk are canonical: proved for the NIST blanket impl (Verus: the re-encoding filters in the code, whatever elliptic-curve's decoders accept) and for Curve25519 (Kani over all 2^256 inputs); ristretto255 relies on dalek's canonical decompress / from_canonical_bytes (assumed, sampled)", "scalar decoding of the OPRF group is canonical for exact-length input (dependency contract, sampled)"],
 }
 
 PROPS["C11"] = {
     "alternatives": [{
         "name": "decoders-only",
         "clauses": star(DECODERS) + [(K + "PublicKey::deserialize", "*"), (K + "PrivateKey::deserialize", "*"), (K + "KeyPair::from_private_key_slice", "*"), (O + "unmask_response", "*"),
-                                     (K + "PrivateKey::deserialize[serde]", "*"), (K + "PublicKey::deserialize[serde]", "*"), (M + "deserialize_blinded_element", "*"), (M + "deserialize_evaluation_element", "*")],
+                                     (K + "PrivateKey::deserialize[serde]", "*"), (K + "PublicKey::deserialize[serde]", "*"), (M + "deserialize_blinded_element", "*"), (M + "deserialize_evaluation_element", "*"),
+                                     (GE + "deserialize_pk", "valid"), (GE + "deserialize_sk", "valid"), (GE + "deserialize_sk", "nonzero"), (GE + "hash_to_scalar", "*"), (GE + "is_zero_scalar", "*")],
         "exclude": {"strict"},
         "kani": {"quick": [("api", "x25519_pk_no_small_order"), ("api", "x25519_sk_decode"), ("api", "ristretto_sk_decode"), ("api", "ristretto_pk_decode_rejects_identity")],
                  "thorough": [("api", "x25519_pk_decode_identity"), ("api", "ristretto_decode_length"), ("api", "x25519_sk_decode_length")]},
@@ -289,7 +298,7 @@ PROPS["C11"] = {
     }],
     "witness": "c11",
     "explanation": "Group level (Kani on the real KeGroup impls): Curve25519 deserialize_pk never yields the identity or a small-order point (canonical and non-reduced spellings, with and without bit 255), deserialize_sk only clamped non-zero scalars (complete over 2^256); ristretto255 deserialize_pk never yields the identity (decompress stubbed by its contract), deserialize_sk never zero / non-canonical. Message level (Verus): every group-element and scalar field of every message and state is obtained ONLY through those decoders (the `fields` clauses: Some(field) == de_pk / de_sk / de_elem / de_scalar of the corresponding input bytes) plus the explicit identity checks on OPRF elements in login messages (`nonid`).",
-    "assumptions": [A_PRELUDE, "off-curve / non-canonical rejection inside dalek decompress, elliptic-curve from_sec1_bytes, Scalar::from_canonical_bytes is the dependency's contract (sampled by the replay crate)", "NIST KeGroup wrapper (blanket impl in elliptic_curve.rs): not reachable by Kani here (generic over RustCrypto curve types); its identity / range / tag behaviour is sampled exhaustively over the tag byte by the replay crate — testing, not proof",
+    "assumptions": [A_PRELUDE, "off-curve / non-canonical rejection inside dalek decompress, elliptic-curve from_sec1_bytes, Scalar::from_canonical_bytes is the dependency's contract (sampled by the replay crate)", "NIST KeGroup wrapper (blanket impl in elliptic_curve.rs): under Verus contract against a shim of elliptic-curve (PublicKey::from_sec1_bytes never yields the identity, SecretKey::from_slice only non-zero in-range scalars: the dependency's documented type invariants, assumed); additionally sampled exhaustively over the tag byte by the replay crate — testing, not proof",
                     "serde: the four hand-written key impls are under contract (they route through KG::deserialize_* / serialize_* and nothing else; serde itself is a shim); derived impls are generated code (assumed field-wise), exercised by the replay crate through bincode and JSON"],
 }
 
@@ -320,7 +329,9 @@ PROPS["C19"] = {
         "name": "wrappers-and-derivation",
         "clauses": [(G + "KeGroup::derive_auth_keypair", "*"), (G + "i2osp_2", "*"), (K + "KeyPair::generate_random", "*"), (K + "KeyPair::from_private_key", "*"), (K + "KeyPair::from_private_key_slice", "*"),
                     (K + "KeyPair::public", "*"), (K + "KeyPair::private", "*"), (K + "PrivateKey::diffie_hellman", "*"), (K + "PrivateKey::public_key", "*"), (K + "PrivateKey::serialize", "*"),
-                    (K + "PrivateKey::deserialize", "*"), (K + "PublicKey::deserialize", "*"), (K + "PublicKey::serialize", "*")],
+                    (K + "PrivateKey::deserialize", "*"), (K + "PublicKey::deserialize", "*"), (K + "PublicKey::serialize", "*"),
+                    (GE + "serialize_pk", "*"), (GE + "deserialize_pk", "valid"), (GE + "hash_to_scalar", "*"), (GE + "public_key", "*"), (GE + "is_zero_scalar", "*"), (GE + "diffie_hellman", "*"),
+                    (GE + "serialize_sk", "*"), (GE + "deserialize_sk", "valid"), (GE + "deserialize_sk", "nonzero"), (GE + "derive_auth_keypair", "*")],
         "kani": {"quick": [("api", "x25519_derive_is_clamp")], "thorough": [("api", "x25519_sk_decode"), ("api", "x25519_pk_decode_identity"), ("api", "ristretto_sk_decode")]},
         "replay": ["c19"],
     }],
